@@ -44,10 +44,10 @@ Print Assumptions C04_recon_iter_sound.
    index safety — no read or write of values/prev/next leaves [0, 2S) (the model's checked
    accesses never yield Oob) — and link_has_successor — the relink never finds next[link] < 0,
    so no node is ever dropped (drops unchanged); Inv is preserved. *)
-Theorem C04_loop_safe : forall g K v0, geom_ok g -> forall strides, Forall (stride_ok g) strides ->
-  forall fuel cur s, Inv g K v0 s -> -1 <= cur < 2 * gS g ->
+Theorem C04_loop_safe : forall g K v0 strides, geom_ok g -> Forall (stride_ok g) strides ->
+  forall fuel cur s, Inv g K strides v0 s -> -1 <= cur < 2 * gS g ->
   match loop fuel (gS g) strides cur s with
-  | Ok s' => Inv g K v0 s' /\ drops s' = drops s
+  | Ok s' => Inv g K strides v0 s' /\ drops s' = drops s
   | OutOfFuel => True
   | Oob => False
   | Rejected => False
@@ -56,7 +56,7 @@ Proof. exact loop_safe. Qed.
 Print Assumptions C04_loop_safe.
 
 (* Full: the boolean invariant checker is sound (it is evaluated on the set-up state of every case). *)
-Theorem C04_inv_check_sound : forall g K s, inv_check g K s = true -> Inv g K (vals s) s.
+Theorem C04_inv_check_sound : forall g K strides s, inv_check g K s = true -> Inv g K strides (vals s) s.
 Proof. exact inv_check_sound. Qed.
 Print Assumptions C04_inv_check_sound.
 
@@ -83,11 +83,22 @@ Print Assumptions C04_model_safe_partial.
    value and the mask plane (first third of IsRecon).  Missing: the list stays value-sorted and a
    visited node is final (closed + least); covered per instance by recon_check on every case. *)
 Theorem C04_loop_between_partial : forall g K v0 strides, geom_ok g -> Forall (stride_ok g) strides ->
-  forall fuel cur s s', Inv g K v0 s -> -1 <= cur < 2 * gS g ->
+  forall fuel cur s s', Inv g K strides v0 s -> -1 <= cur < 2 * gS g ->
   loop fuel (gS g) strides cur s = Ok s' ->
   forall i, 0 <= i < gS g -> sel v0 i <= sel (vals s') i <= sel v0 (i + gS g).
 Proof. exact loop_between. Qed.
 Print Assumptions C04_loop_between_partial.
+
+(* Partial (second third of recon_loop_correct, in flat/rank space): the loop's result lies below
+   every image above the initial image plane that no dilate-and-clip step along the stride table
+   can raise; so it never overshoots the reconstruction.  With C04_loop_between_partial only
+   "closed" (the result cannot be raised any more) remains; see recon_loop_closed in reports/C04.md. *)
+Theorem C04_loop_least_partial : forall g K v0 strides, geom_ok g -> Forall (stride_ok g) strides ->
+  forall fuel cur s s', Inv g K strides v0 s -> -1 <= cur < 2 * gS g ->
+  loop fuel (gS g) strides cur s = Ok s' ->
+  forall U, flat_postfixed g strides v0 U -> forall i, 0 <= i < gS g -> sel (vals s') i <= U i.
+Proof. exact loop_least. Qed.
+Print Assumptions C04_loop_least_partial.
 
 (* Full.  The idempotence clause on grids: an output accepted by the checker is the
    reconstruction of itself under the same mask, and any reconstruction of it equals it. *)
